@@ -48,6 +48,10 @@ SymChars ==
     \* lone underscore, and one hard keyword (a NAME for the tokenizer, never an atom)
     smatch |-> <<109, 97, 116, 99, 104>>, scase |-> <<99, 97, 115, 101>>, stype |-> <<116, 121, 112, 101>>,
     us |-> <<95>>, knot |-> <<110, 111, 116>>,
+    \* characters that str.splitlines() breaks on but that do not end a physical line for Python:
+    \* form feed (a blank in code: page-break lines, leading form feed), and - legal only inside
+    \* strings and comments - vertical tab, file separator, NEL, LINE / PARAGRAPH SEPARATOR
+    ffd |-> <<12>>, vt |-> <<11>>, fsep |-> <<28>>, nel |-> <<133>>, ls |-> <<8232>>, ps |-> <<8233>>,
     d |-> <<49>>,            \* digit 1
     ue |-> <<233>>,          \* e-acute: non-ASCII identifier character
     sp |-> <<32>>, tab |-> <<9>>, nl |-> <<10>>, semi |-> <<59>>,
@@ -188,6 +192,8 @@ Other(L, c) ==
   ELSE IF c = 10 THEN Newline(L)
   ELSE IF c \in {32, 9}
        THEN IF L.bol /\ L.stmt = 0 /\ L.brs = <<>> /\ ~InField(L) THEN [L EXCEPT !.ws = TRUE] ELSE L
+  ELSE IF c = 12                                   \* form feed: a blank that resets the indentation column
+       THEN IF L.bol /\ L.stmt = 0 /\ L.brs = <<>> /\ ~InField(L) THEN [L EXCEPT !.ws = FALSE] ELSE L
   ELSE IF c = 92 THEN IF InField(L) \/ L.stmt = 0 THEN Err(L) ELSE [L EXCEPT !.pbs = TRUE]
   ELSE IF c = 46
        THEN IF L.pos > 0 /\ L.chars[L.pos] = 46 THEN Err(L)     \* ".." / the ellipsis: not modelled
@@ -204,7 +210,7 @@ CodeStep(L, c) ==
   IF IsQuote(c) /\ L.emptyq = c THEN Err(L)        \* '' followed by ' is the start of '''
   ELSE
   LET L1 == [L EXCEPT !.emptyq = 0, !.lastcont = FALSE,
-                      !.bol = IF c \in {32, 9} THEN @ ELSE FALSE] IN
+                      !.bol = IF c \in {32, 9, 12} THEN @ ELSE FALSE] IN
   IF L.pbs
   THEN IF c = 10
        THEN [L1 EXCEPT !.pbs = FALSE, !.line = @ + 1, !.joins = Append(@, L.pos), !.lastcont = TRUE, !.bol = TRUE,
